@@ -20,11 +20,11 @@ func init() {
 		Race:  true,
 		Rule: "the worker is built with the race detector; every case is a batch: 8-24 independent inputs (general mixture, all cells; greedy-random runs without a seed hook, so it is time-seeded as in " +
 			"production and only takes part in the race oracle), sequential reference results first (twice each; inputs whose references disagree are left out of the equality oracle), then k in {2, 8, 32, 64} goroutines " +
-			"x GOMAXPROCS in {1, 2, 4, 16, 64} each issuing 3-6 calls on the inputs, no monitor, no hook installed; oracles: (1) zero race detector reports (GORACE log of every worker, de-duplicated by the " +
+			"x GOMAXPROCS in {1, 2, 4, 16, 64} each issuing 3-6 calls on the inputs, no monitor, no hook installed; before the concurrent phase a quarter of the batches each makes no call, a monitored call that returns, a monitored call on the empty graph (panics), a monitored call on a malformed edge (panics); oracles: (1) zero race detector reports (GORACE log of every worker, de-duplicated by the " +
 			"innermost autog frames), (2) every concurrent result equals its sequential reference byte for byte, (3) at the quiescent point the monitor globals are idle and the default options are unchanged (hook H4); " +
 			"non-trivial = a batch in which calls on different algorithm cells actually overlapped in time (measured with an in-flight counter)",
 		MinNontrivial: counts(60, 600),
-		Required:      []string{"overlapping_calls", "concurrent_calls", "equality_checks"},
+		Required:      []string{"overlapping_calls", "concurrent_calls", "equality_checks", "preamble:2", "preamble:3"},
 		Budget:        120,
 		Assumptions: []string{
 			"the static enumeration of package-level variables named in the property's quantifier is a static analysis and is NOT done; the runtime substitute is the quiescent-state check of the globals plus the race detector over the executed paths",
@@ -38,6 +38,7 @@ func init() {
 				Goroutines: []int{2, 8, 32, 64}[r.Intn(4)],
 				Procs:      []int{1, 2, 4, 16, 64}[r.Intn(5)],
 				Rounds:     3 + r.Intn(4),
+				Preamble:   r.Intn(4),
 			}
 			for i := 0; i < k; i++ {
 				fam, edges := generalGraph(r, i, 10, false)
@@ -79,6 +80,16 @@ func init() {
 					ea, eb := core.Canon(a.Layout), core.Canon(b.Layout)
 					refs[i] = ref{ea, ea == eb}
 				}
+			}
+			// history before the concurrent phase: the property is about calls without a monitor, but it has to hold after any
+			// earlier history, in particular after a monitored call that ended in a panic
+			switch cc.Preamble {
+			case 1:
+				core.RunPlain(cc.Inputs[0].Edges, cc.Inputs[0].Opts, autog.WithMonitor(&core.Recorder{}))
+			case 2:
+				core.RunPlain([][]string{}, cc.Inputs[0].Opts, autog.WithMonitor(&core.Recorder{}))
+			case 3:
+				core.RunPlain([][]string{{"a", "b"}, {"c"}}, cc.Inputs[0].Opts, autog.WithMonitor(&core.Recorder{}))
 			}
 			old := runtime.GOMAXPROCS(cc.Procs)
 			defer runtime.GOMAXPROCS(old)
@@ -153,6 +164,7 @@ func init() {
 			r.stat("equality_checks", int(compared.Load()))
 			r.stat(fmt.Sprintf("goroutines:%d", cc.Goroutines), 1)
 			r.stat(fmt.Sprintf("gomaxprocs:%d", cc.Procs), 1)
+			r.stat(fmt.Sprintf("preamble:%d", cc.Preamble), 1)
 			if wantSample {
 				r.Sample = map[string]any{"index": c.Index, "goroutines": cc.Goroutines, "gomaxprocs": cc.Procs, "rounds": cc.Rounds, "inputs": len(cc.Inputs),
 					"calls": calls.Load(), "overlapping_calls": overlapped.Load(), "first_input": cc.Inputs[0]}
